@@ -83,10 +83,19 @@ func doHmtx(c *Case, out *vio.Out) {
 			vio.Fatal("bad hmtx mode")
 		}
 		hheaData, hmtxData := info.Encode()
+		// call history: the result handed out must not change when the encoder is used again
+		snapA, snapB := append([]byte(nil), hheaData...), append([]byte(nil), hmtxData...)
+		other := &hmtx.Info{Widths: make([]funit.Int16, len(info.Widths)+1), LSB: make([]funit.Int16, len(info.Widths)+1),
+			Ascent: ^info.Ascent, Descent: ^info.Descent, LineGap: ^info.LineGap, CaretAngle: 0.3, CaretOffset: ^info.CaretOffset}
+		for i := range other.Widths {
+			other.Widths[i], other.LSB[i] = funit.Int16(7000+i), funit.Int16(-900-i)
+		}
+		other.Encode()
+		intact := bytes.Equal(snapA, hheaData) && bytes.Equal(snapB, hmtxData)
 		in := ev{"mode": c.Mode, "w": c.W, "lsb": c.LSB, "box": c.Box, "asc": c.S.Asc, "desc": c.S.Desc,
 			"gap": c.S.Gap, "coff": c.S.Coff, "rise": c.S.Rise, "run": c.S.Run}
 		e := ev{"ev": "hmtx", "case": c.ID, "in": in, "hhea": mx.Words(hheaData), "hm": mx.Words(hmtxData),
-			"hmbytes": len(hmtxData)}
+			"hmbytes": len(hmtxData), "intact": intact}
 		dec, err := hmtx.Decode(hheaData, hmtxData)
 		o := ev{"w": []int{}, "lsb": []int{}, "asc": 0, "desc": 0, "gap": 0, "coff": 0, "rise": 0, "run": 0}
 		if err == nil {
@@ -202,11 +211,17 @@ func doHead(c *Case, out *vio.Out) {
 			LowestRecPPEM: uint16(c.PPEM), LocaFormat: int16(c.Loca),
 		}
 		data := info.Encode()
+		snap := append([]byte(nil), data...)
+		(&head.Info{FontRevision: ^info.FontRevision, HasYBaseAt0: !c.YBase, HasXBaseAt0: !c.XBase, IsNonlinear: !c.Nonlin,
+			UnitsPerEm: ^info.UnitsPerEm, Created: time.Unix(86400*365*40, 0), Modified: time.Unix(86400*365*41, 0),
+			FontBBox: funit.Rect16{LLx: 11, LLy: 12, URx: 13, URy: 14}, IsBold: !c.Bold, IsItalic: !c.Italic, HasShadow: !c.Shadow,
+			IsCondensed: !c.Cond, IsExtended: !c.Ext, LowestRecPPEM: ^info.LowestRecPPEM, LocaFormat: 1 - info.LocaFormat}).Encode()
+		intact := bytes.Equal(snap, data)
 		in := ev{"ybase": c.YBase, "xbase": c.XBase, "nonlin": c.Nonlin, "bold": c.Bold, "italic": c.Italic,
 			"shadow": c.Shadow, "cond": c.Cond, "ext": c.Ext, "rev": c.Rev, "upm": c.Upm,
 			"czero": c.CZero, "c": zeroIf(c.CZero, c.C), "mzero": c.MZero, "m": zeroIf(c.MZero, c.M),
 			"bbox": c.BBox, "ppem": c.PPEM, "loca": c.Loca}
-		e := ev{"ev": "head", "case": c.ID, "in": in, "raw": mx.Words(data), "bytes": len(data)}
+		e := ev{"ev": "head", "case": c.ID, "in": in, "raw": mx.Words(data), "bytes": len(data), "intact": intact}
 		dec, err := head.Read(bytes.NewReader(data))
 		e["ok"] = err == nil
 		if err == nil {
@@ -272,6 +287,12 @@ func doOS2(c *Case, out *vio.Out) {
 			PermUse:       permOf(c.Perm), PermNoSubsetting: c.NoSub, PermOnlyBitmap: c.Bmp,
 		}
 		data := info.Encode()
+		snap := append([]byte(nil), data...)
+		(&os2.Info{WeightClass: 900, WidthClass: 1, IsBold: !c.Bold, IsItalic: !c.Italic, IsOblique: !c.Oblique,
+			FirstCharIndex: ^info.FirstCharIndex, LastCharIndex: ^info.LastCharIndex, Ascent: ^info.Ascent, Descent: ^info.Descent,
+			LineGap: ^info.LineGap, AvgGlyphWidth: ^info.AvgGlyphWidth, CodePageRange: ^cp, PermUse: os2.PermEdit,
+			PermNoSubsetting: !c.NoSub, PermOnlyBitmap: !c.Bmp}).Encode()
+		intact := bytes.Equal(snap, data)
 		cpIn := c.CP
 		if cpIn == nil {
 			cpIn = []int{}
@@ -279,7 +300,7 @@ func doOS2(c *Case, out *vio.Out) {
 		in := ev{"bold": c.Bold, "italic": c.Italic, "regular": c.Regular, "oblique": c.Oblique, "nosub": c.NoSub,
 			"bmp": c.Bmp, "perm": c.Perm, "cp": cpIn, "avg": c.Avg, "first": c.First, "last": c.Last,
 			"asc": c.Asc, "desc": c.Desc, "gap": c.Gap}
-		e := ev{"ev": "os2", "case": c.ID, "in": in, "raw": mx.Words(data), "bytes": len(data)}
+		e := ev{"ev": "os2", "case": c.ID, "in": in, "raw": mx.Words(data), "bytes": len(data), "intact": intact}
 		dec, err := os2.Read(bytes.NewReader(data))
 		e["ok"] = err == nil
 		if err == nil {
@@ -304,8 +325,12 @@ func doPost(c *Case, out *vio.Out) {
 		info := &post.Info{ItalicAngle: angle, UnderlinePosition: funit.Int16(c.UPos),
 			UnderlineThickness: funit.Int16(c.UThick), IsFixedPitch: c.Fixed}
 		data := info.Encode()
+		snap := append([]byte(nil), data...)
+		(&post.Info{ItalicAngle: -angle - 3.25, UnderlinePosition: ^info.UnderlinePosition,
+			UnderlineThickness: ^info.UnderlineThickness, IsFixedPitch: !c.Fixed}).Encode()
+		intact := bytes.Equal(snap, data)
 		in := ev{"ahi": c.AHi, "alo": c.ALo, "upos": c.UPos, "uthick": c.UThick, "fixed": c.Fixed}
-		e := ev{"ev": "post", "case": c.ID, "in": in, "raw": mx.Words(data), "bytes": len(data)}
+		e := ev{"ev": "post", "case": c.ID, "in": in, "raw": mx.Words(data), "bytes": len(data), "intact": intact}
 		dec, err := post.Read(bytes.NewReader(data))
 		e["ok"] = err == nil
 		e["exact"] = true
@@ -357,8 +382,14 @@ func doMaxp(c *Case, out *vio.Out) {
 				MaxSizeOfInstructions: t[10], MaxComponentElements: t[11], MaxComponentDepth: t[12]}
 		}
 		data := info.Encode()
+		snap := append([]byte(nil), data...)
+		(&maxp.Info{NumGlyphs: 65536 - c.N, TTF: info.TTF}).Encode()
+		if info.TTF != nil {
+			(&maxp.Info{NumGlyphs: 77, TTF: &maxp.TTFInfo{MaxPoints: 4242, MaxZones: 7, MaxComponentDepth: 99}}).Encode()
+		}
+		intact := bytes.Equal(snap, data)
 		in := ev{"n": c.N, "ttf": c.TTF, "t": maxpRecord(info.TTF)}
-		e := ev{"ev": "maxp", "case": c.ID, "in": in, "raw": mx.Words(data), "bytes": len(data)}
+		e := ev{"ev": "maxp", "case": c.ID, "in": in, "raw": mx.Words(data), "bytes": len(data), "intact": intact}
 		dec, err := maxp.Read(bytes.NewReader(data))
 		e["ok"] = err == nil
 		if err == nil {
